@@ -3,7 +3,7 @@
    owned::write_index_body, IndexU16/IndexU32 write, read_index, lookup_offset_index,
    Index::read_object).  The numeric constants of the encoding come from Gen/TableLayouts.v
    (regenerated from the Rust on every run).  No proofs in this file. *)
-From AV Require Import Base.Prelude Gen.ReaderPrims Model.Reader Model.ReaderExt Model.Layout Gen.TableLayouts Model.Tables.
+From AV Require Import Base.Prelude Gen.ReaderPrims Model.Reader Model.ReaderExt Model.TableLayout Gen.TableLayouts Model.Tables.
 Open Scope Z_scope.
 
 Definition between (lo v hi : Z) : bool := (lo <=? v) && (v <=? hi).
